@@ -5,6 +5,9 @@ use crate::report::Report;
 
 pub mod group_a;
 pub mod group_b;
+pub mod group_c;
+pub mod walkgen;
+pub mod walksim;
 
 #[derive(Clone, Copy, Debug, PartialEq, Eq)]
 pub enum Group {
@@ -40,6 +43,7 @@ pub fn make(id: &str, tier: Tier, seed: u64) -> Option<Box<dyn Monitor>> {
             Some(Box::new(group_a::GroupA::new(id, tier, seed)))
         },
         "C05" | "C06" | "C17" | "C18" => Some(Box::new(group_b::GroupB::new(id, tier, seed))),
+        "C02" | "C03" | "C13" | "C14" | "C15" | "C16" | "C20" => Some(Box::new(group_c::GroupC::new(id, tier, seed))),
         _ => None,
     }
 }
